@@ -620,7 +620,7 @@ func (runInfo *runInfoStruct) runForChanStmt(stmt *ast.ForStmt, value reflect.Va
 		if runInfo.rv.Kind() == reflect.Interface && !runInfo.rv.IsNil() {
 			runInfo.rv = runInfo.rv.Elem()
 		}
-		if runInfo.rv.Kind() == reflect.Ptr {
+		if runInfo.rv.Kind() == reflect.Ptr && !runInfo.rv.IsNil() {
 			runInfo.rv = runInfo.rv.Elem()
 		}
 
